@@ -34,13 +34,13 @@ def decls(schema):
     for ch in list(schema):
         if ch.tag == 'xs:simpleType':
             r = list(ch)[0]
-            types[ch.get('name')] = (r.get('base'), [e.get('value') for e in list(r)])
+            types[('<declared twice> ' if ch.get('name') in types else '') + ch.get('name')] = (r.get('base'), [e.get('value') for e in list(r)])
         elif ch.tag == 'xs:element':
             comp = ch.get('name')
             seq = list(list(ch)[0])[0]
             for cls in list(seq):
                 ct = list(cls)[0]
-                elements[cls.get('name')] = [(a.get('name'), a.get('type')) for a in list(ct)]
+                elements[('<declared twice> ' if cls.get('name') in elements else '') + cls.get('name')] = [(a.get('name'), a.get('type')) for a in list(ct)]
     return elements, types, comp
 
 
@@ -220,14 +220,19 @@ def check_enum(op: int, s: str) -> bool:
 
 def check_udt(bi: int, ni: int) -> bool:
     """
-    pre: 0 <= bi < 5 and 0 <= ni < 3
+    pre: 0 <= bi < 8 and 0 <= ni < 3
     post: POST(_)
     """
     # add a user-defined type named s (in the component's Types package) on base 'string' /
     # 'My_Integer' (UDT of a UDT) / 'My_Enum' / 'void' (unsupported base: no declaration)
-    bi = cs(bi, 0, 4)
+    bi = cs(bi, 0, 7)
     s = ['Zt', 'a', 'My_Other_Type'][cs(ni, 0, 2)]     # type names are dictionary keys (hashed): case-split
-    bname = ['string', 'My_Integer', 'My_Enum', 'void', '*rebase'][bi]
+    # *sibling1 / *sibling2: the new type lives in a package (one / two levels deep) of a SIBLING component: not in scope;
+    # *deep: two packages below the component's own type package: in scope, declared once
+    bname = ['string', 'My_Integer', 'My_Enum', 'void', '*rebase', '*sibling1', '*sibling2', '*deep'][bi]
+    place = bname if bname in ('*sibling1', '*sibling2', '*deep') else None
+    if place:
+        bname = 'string'
     with notrace():
         bp = load_bp()
         pregen(bp)
@@ -240,17 +245,38 @@ def check_udt(bi: int, ni: int) -> bool:
         base = bp.select_one('S_DT', lambda x: x.Name == ('string' if bname == '*rebase' else bname))
         proto = bp.select_one('S_DT', lambda x: x.Name == 'My_Integer')
         pkg = one(proto).PE_PE[8001].EP_PKG[8000]()
+
+        def sub_package(name, ep_pkg=None, c_c=None):
+            p = bp.new('EP_PKG', Name=name)
+            pe_p = bp.new('PE_PE', Visibility=1, type=7)
+            xtuml.relate(p, pe_p, 8001)
+            if ep_pkg is not None:
+                xtuml.relate(pe_p, ep_pkg, 8000)
+            if c_c is not None:
+                xtuml.relate(pe_p, c_c, 8003)
+            return p
+        if place == '*deep':
+            pkg = sub_package('Deeper', ep_pkg=sub_package('Deep', ep_pkg=pkg))
+        elif place:
+            other = bp.new('C_C', Name='Other', Mult=0, isRealized=False)
+            pe_c = bp.new('PE_PE', Visibility=1, type=2)
+            xtuml.relate(other, pe_c, 8001); xtuml.relate(pe_c, bp.select_one('EP_PKG', lambda x: x.Name == 'Components'), 8000)
+            pkg = sub_package('Lib', c_c=other)
+            if place == '*sibling2':
+                pkg = sub_package('Inner', ep_pkg=sub_package('Mid', ep_pkg=pkg))
         s_dt = bp.new('S_DT', Name='tmp')
         pe = bp.new('PE_PE')
         xtuml.relate(s_dt, pe, 8001); xtuml.relate(pe, pkg, 8000)
         udt = bp.new('S_UDT')
         xtuml.relate(udt, s_dt, 17); xtuml.relate(udt, base, 18)
     s_dt.Name = s
-    case(EDIT, bname)
+    case(EDIT, place or bname)
     exp_types = dict(B_TYPES)
     if bname == '*rebase':
         exp_types['My_Integer'] = ('real', [])
         exp_types[s] = ('string', [])
+    elif place in ('*sibling1', '*sibling2'):
+        pass
     elif bname != 'void':
         exp_types[s] = (bname, [])
     return finish(bp, B_ELEMS, exp_types, 'new user type on %s' % bname)
